@@ -124,8 +124,10 @@ theorem exec_guard {w w' : World} {blk : Block} {op : Op} {o : Outcome} (h : w.e
 theorem exec_self_tokens {w w' : World} {blk : Block} {op : Op} {o : Outcome} (h : w.exec blk op = .ok (w', o)) :
     w'.self = w.self ∧ w'.tokens = w.tokens := by
   cases op with
-  | connect id v cv ord =>
-    have f := exec_plain_frame h (Or.inl ⟨id, v, cv, ord, rfl⟩); exact ⟨f.2.2.2.1, f.2.2.2.2.1⟩
+  | connect id v cv ord peer =>
+    have f := exec_plain_frame h (Or.inl ⟨id, v, cv, ord, peer, rfl⟩); exact ⟨f.2.2.2.1, f.2.2.2.2.1⟩
+  | chanOpen v cv ord => obtain ⟨rfl, rfl⟩ := exec_chanOpen h; exact ⟨rfl, rfl⟩
+  | chanClose id => exact (exec_chanClose h).elim
   | allow snd c gg =>
     have f := exec_plain_frame h (Or.inr (Or.inl ⟨snd, c, gg, rfl⟩)); exact ⟨f.2.2.2.1, f.2.2.2.2.1⟩
   | updateAdmin snd a =>
@@ -244,8 +246,10 @@ theorem exec_keysFaithful {w w' : World} {blk : Block} {op : Op} {o : Outcome}
     (he : ∀ snd funds msg, op = .transferNative snd funds msg → ∀ f ∈ funds, NativeOk f.1)
     (h : w.exec blk op = .ok (w', o)) : KeysFaithful w'.st.chan := by
   cases op with
-  | connect id v cv ord =>
-    have f := exec_plain_frame h (Or.inl ⟨id, v, cv, ord, rfl⟩); rw [f.1]; exact hk
+  | connect id v cv ord peer =>
+    have f := exec_plain_frame h (Or.inl ⟨id, v, cv, ord, peer, rfl⟩); rw [f.1]; exact hk
+  | chanOpen v cv ord => obtain ⟨rfl, rfl⟩ := exec_chanOpen h; exact hk
+  | chanClose id => exact (exec_chanClose h).elim
   | allow snd c gg =>
     have f := exec_plain_frame h (Or.inr (Or.inl ⟨snd, c, gg, rfl⟩)); rw [f.1]; exact hk
   | updateAdmin snd a =>
